@@ -4,10 +4,13 @@ check("C11", "model_checking",
       "runs last. MC_Init lets TLC explore EVERY admissible initialisation order of every program of two families: dependency SHAPES (1-4 globals, 15 "
       "initialiser kinds: literal, read, arithmetic, function reading / assigning / op-assigning a global, call, closure-returning function and its call, "
       "enum value, blob literal, blob of g_j, field read, list of g_j; every target choice; mutable and constant globals; 11 495 programs) and syntactic "
-      "POSITIONS (a function or initialiser whose only mention of a later-declared global sits at one child position of one construct: 47 positions - "
+      "POSITIONS (a function or initialiser whose only mention of a later-declared global sits at one child position of one construct: 50 positions - "
       "if/elif/else conditions and branches, case scrutinee/arms/else, loop condition/body, callee, arguments, prime/arrow calls, tuple/list/blob/variant "
-      "components, index/field base, unary/binary/and/or operands, assignment rhs and TARGET, ret, block, closure, method, <=> - x 4 kinds of user; 171 "
-      "programs) under the "
+      "components, index/field base, unary/binary/and/or operands, assignment rhs and TARGET, ret, block, closure, method, <=> - x 4 kinds of user; 180 "
+      "programs), SELF-REFERENCE of a non-function initialiser at each of those positions (45 programs, must be rejected), and TYPE ORDER (17 shapes of "
+      "blob / enum declarations that mention each other directly, in list / tuple / fn types, as generic arguments, in chains and cycles, and "
+      "signature-only uses of later-declared types; each with a well-typed use and planted ill-typed uses that must be rejected in every order; "
+      "well-typedness is decided by the TLA+ typing judgement TypeOk; 48 programs) under the "
       "invariants no-uninitialised-access, confluence, blocked-iff-cyclic, and classifies each program: confluent (one result), cyclic (no complete "
       "behaviour), non-confluent (excluded from the behavioural comparison, counted). The harness renders every permutation of the top-level "
       "statements (all NS! up to 120, else 120 seeded ones incl. reversed) and two-file splits (other.sy, `from .. use` and `use ..` with qualified "
@@ -19,6 +22,6 @@ check("C11", "model_checking",
       "Trusted: TLC, SyltSem/SyltValues (shared with C01), the printer, minilua, the factoradic permutation numbering of the harness (self-checked to "
       "be a bijection). Quick samples the 4-global programs (1/12 + landmarks); thorough is exhaustive over the universe. Programs the compiler rejects "
       "in every order although the specification finds an admissible order are counted (no completeness is promised), not reported. Known findings "
-      "F8/F8b (assignment targets ignored by the dependency analysis) are reported as KNOWN-FINDING.",
+      "F8/F8b/F23 are fixed in /repo; F24 (cyclically mentioning type declarations leave a field unchecked, order-dependent for mutual recursion) is reported as KNOWN-FINDING.",
       "TLA+ order-nondeterministic initialisation semantics explored by TLC + replay of all textual permutations into the compiler + TLC validation of the recorded results",
       "DESIGN.md 5.7, 8/C11; docs/C11.md")
